@@ -21,7 +21,7 @@ func init() {
 			"D3 ChangeMapping: nothing reachable from the result originates in the receiver except through Copy()/the immutable mapping; the stores of the result are the caller-supplied ones. "+
 			"D5 no package-level state — no exported function or method of the module (the reflection plumbing of the protoc-generated message file excepted) writes, directly or through anything it calls, memory reachable from a package-level variable: a reused builder, a scratch buffer or a 'last result' cache would make one sketch's answers depend on other sketches' operations, on overlapping calls and on re-entrant writers. "+
 			"D6 detached snapshots — nothing reachable from the message returned by any ToProto (stores, both sketch variants, mappings) is memory of the receiver or of a package-level variable. "+
-			"SHARED (re-evaluated here under its home rule id): C08-D4 batch-room (the compaction trigger is moved by read-only operations; the decoder's batch size computed from it is non-negative whatever its value, so no later answer depends on an earlier read). "+
+			"SHARED (re-evaluated here under its home rule id): C04-D3 (the iteration queries: every callback verdict honoured, empty entries skipped, both paginated iterators sort the buffer before they walk it and agree). C08-D4 batch-room (the compaction trigger is moved by read-only operations; the decoder's batch size computed from it is non-negative whatever its value, so no later answer depends on an earlier read). "+
 			"NOT DECIDED: that sorting and compaction preserve the represented index→count map (value statement; the one trusted assumption of this check).",
 		"one obligation per (read-only operation × implementation), per Copy × (origin, each field, dynamic type), per mapping-field store; non-trivial = the write set / origin set had to be computed through at least one call",
 		true, runC14)
@@ -51,6 +51,11 @@ func runC14(c *Ctx) {
 	c02ArgUntouched(c, a, "C14-D4")
 	c14NoPackageState(c, "C14-D5")
 	c14Detached(c, "C14-D6")
+	// "even though some stores reorganise themselves internally while answering": the iteration queries of the paginated
+	// store answer from the reorganised (sorted) buffer — both iterators sort before they walk, skip nothing, agree
+	if storeI := c.P.NamedType(pkgStore, "Store"); storeI != nil {
+		c.shared(func() { c04Iteration(c, c.P.Implementations(storeI), "C04-D3") }, func(o *Obligation) bool { return true })
+	}
 	// read-only operations of the paginated store may move its compaction trigger (a representation field outside the
 	// observable write set): nothing observable may depend on where it stands — the decoder's batch size, computed
 	// from it, is non-negative whatever its value (C08-D4 batch-room, re-evaluated here)
